@@ -556,22 +556,23 @@ Section Strand.
       - (* it fails: the scan moves on to position e + 1, the measure decreases *)
         assert (Hne : e <> p0).
         { intro E. unfold a in ECAS. rewrite E, Hl0, Hf0, CR_eqb_CR in ECAS. discriminate. }
-        assert (Hex : ((e + 1) mod MN = e + 1)%N) by (apply N.mod_small; lia).
         assert (Hdec : (mu (e + 1) < mu (ridx r))%nat).
-        { unfold mu. fold e. unfold eff at 1. unfold e, eff in *.
+        { clear Hnum IH Htl ECAS SFL SBF. unfold mu. fold e. unfold eff at 1. unfold e, eff in *.
           destruct (N.leb_spec (gW s) (ridx r)); destruct (N.leb_spec (gW s) (gRI s + 1));
             destruct (N.leb_spec (gW s) (ridx r + 1));
             repeat match goal with |- context [(?x <=? ?y)%N] => destruct (N.leb_spec x y) end; lia. }
+        assert (Hdec' : (mu (e + 1) < m)%nat) by (clear Hnum; lia).
+        assert (Hex : ((e + 1) mod MN = e + 1)%N) by (apply N.mod_small; clear Hnum; lia).
         unfold e, eff in *. destruct (gW s <=? ridx r)%N eqn:EL.
         + sstep0 Hlt Htl. sstep Hlt. sstep Hlt. rewrite SW, Hrc, Hnum. cbn. sstep Hlt. rewrite EL. cbn.
           sstep Hlt. sstep Hlt. rewrite SRI. fold a. sstep Hlt. rewrite SFL, ECAS. cbn.
           sstep Hlt. rewrite N.eqb_sym, ECAS. cbn. sstep Hlt. sstep Hlt. sstep Hlt.
-          eapply (IH (mu (gRI s + 1))); [lia| |cbn [tls]; apply updt_same|cbn; exact SRC|cbn; rewrite Hex; lia].
+          eapply (IH (mu (gRI s + 1))); [exact Hdec'| |cbn [tls]; apply updt_same|cbn; exact SRC|cbn; rewrite Hex; apply Nat.le_refl].
           repeat split; cbn; auto.
         + sstep0 Hlt Htl. sstep Hlt. sstep Hlt. rewrite SW, Hrc, Hnum. cbn. sstep Hlt. rewrite EL. cbn.
           sstep Hlt. fold a. sstep Hlt. rewrite SFL, ECAS. cbn.
           sstep Hlt. rewrite N.eqb_sym, ECAS. cbn. sstep Hlt. sstep Hlt. sstep Hlt.
-          eapply (IH (mu (ridx r + 1))); [lia| |cbn [tls]; apply updt_same|cbn; exact SRC|cbn; rewrite Hex; lia].
+          eapply (IH (mu (ridx r + 1))); [exact Hdec'| |cbn [tls]; apply updt_same|cbn; exact SRC|cbn; rewrite Hex; apply Nat.le_refl].
           repeat split; cbn; auto.
     Qed.
 
@@ -588,10 +589,14 @@ Section Strand.
     Proof.
       induction m as [m IH] using lt_wf_ind. intros s1 r rs Hsh Htl Hrw Hlo Hhi Hmu.
       destruct Hsh as [SW [SRC [SRI [SFL SBF]]]].
-      assert (Hex : ((ridx r + (MN - 1)) mod MN = ridx r - 1)%N) by (apply sub1_exact; lia).
+      assert (Hex : ((ridx r + (MN - 1)) mod MN = ridx r - 1)%N) by (apply sub1_exact; clear Hnum; lia).
+      assert (Hz : (0 =? ridx r)%N = false) by (apply N.eqb_neq; clear Hnum Hex; lia).
+      assert (Hf1 : (ridx r - 1 <= gW s)%N) by (clear Hnum Hex; lia).
+      assert (Hf2 : (ridx r - 1 <> p0 -> p0 < ridx r - 1)%N) by (clear Hnum Hex; lia).
+      assert (Hf3 : (ridx r - 1 <> p0 -> (ridx r - 1 <=? gRI s) = false)%N) by (intro; apply N.leb_gt; clear Hnum Hex; lia).
+      assert (Hf4 : (ridx r - 1)%N <> p0 -> (N.to_nat (ridx r - 1 - p0)%N < m)%nat) by (clear Hnum Hex; lia).
       set (f := (ridx r - 1)%N) in *. set (a := N.land f msk).
       assert (Ha : (a < size)%N) by apply (PipeProofs.mask_lt k).
-      assert (Hz : (0 =? ridx r)%N = false) by (apply N.eqb_neq; lia).
       destruct (flags s a =? FLAG_CAN_READ)%N eqn:ECAS.
       - apply N.eqb_eq in ECAS.
         sstep0 Hlt Htl. sstep Hlt. sstep Hlt. rewrite Hrw, SRC, Hnum, Hz. cbn.
@@ -600,11 +605,11 @@ Section Strand.
         apply (good_done s t _ a); cbn; rewrite ?updt_same; cbn; rewrite ?SBF; auto.
       - assert (Hne : f <> p0).
         { intro E. unfold a in ECAS. rewrite E, Hl0, Hf0, CR_eqb_CR in ECAS. discriminate. }
-        assert (Hgt : (f <=? gRI s)%N = false) by (apply N.leb_gt; unfold f in *; lia).
+        pose proof (Hf3 Hne) as Hgt.
         sstep0 Hlt Htl. sstep Hlt. sstep Hlt. rewrite Hrw, SRC, Hnum, Hz. cbn.
         sstep Hlt. rewrite Hex. sstep Hlt. fold a. sstep Hlt. rewrite SFL, ECAS. cbn.
         sstep Hlt. rewrite N.eqb_sym, ECAS. cbn. sstep Hlt. sstep Hlt. rewrite SRI, Hgt. cbn. sstep Hlt.
-        eapply (IH (N.to_nat (f - p0))); [unfold f; lia| |cbn [tls]; apply updt_same|cbn; first [exact Hrw|reflexivity]|cbn; unfold f in *; lia|cbn; unfold f; lia|cbn; lia].
+        eapply (IH (N.to_nat (f - p0))); [exact (Hf4 Hne)| |cbn [tls]; apply updt_same|cbn; first [exact Hrw|reflexivity]|cbn; exact (Hf2 Hne)|cbn; exact Hf1|cbn; apply Nat.le_refl].
         repeat split; cbn; auto.
     Qed.
 
